@@ -594,6 +594,14 @@ def order_of(ctx: Ctx, f: Func, expr: ast.AST, depth: int = 0, _seen: Optional[S
             if ed.site is e and isinstance(ed.target, Func) and ed.kind == "call" and not ed.weak:
                 g = ed.target
                 rets = [n.value for n in own_nodes(g.node) if isinstance(n, ast.Return) and n.value is not None]
+                ylds = [n for n in own_nodes(g.node) if isinstance(n, ast.Yield)]
+                if not rets and ylds and not any(isinstance(n, ast.YieldFrom) for n in own_nodes(g.node)):
+                    # a generator whose every yield sits in ONE loop over a source (and in no inner loop): it yields in
+                    # the order of that source, at most... as many times per element as the body says
+                    tops = [st_ for st_ in g.node.body if isinstance(st_, ast.For)]
+                    inside = [lp_ for lp_ in tops if all(any(y is z for z in ast.walk(lp_)) for y in ylds)]
+                    if len(inside) == 1 and not any(isinstance(z, (ast.For, ast.While)) and z is not inside[0] and any(y is w for w in ast.walk(z) for y in ylds) for z in ast.walk(inside[0])):
+                        rets = [inside[0].iter]
                 if not rets:
                     continue
                 sts = [order_of(ctx, g, r, depth + 1) for r in rets]
@@ -984,7 +992,9 @@ def per_item_unit(ctx: Ctx, f: Func):
     `[self._conv(item) for item in items]`, a local `def _conv(item)`, or `for item in items: acc.append(self._conv(item))`.
     None when neither shape is present."""
     from ..pathsem import function_paths as _fp
+    from .normalise import normalised as _nrm
 
+    f = _nrm(ctx, f, "gencalls")  # `return list(self._iter_items(items))`: the generator's loop is read in place
     cfg = ctx.cfg(f)
     loops = [n for n in cfg.live if n.kind == "for"]
 
